@@ -1,5 +1,6 @@
 /-
-Model of pixel data encapsulation in dicom-rs (repaired behaviour of defects #3, #4, #13):
+Model of pixel data encapsulation in dicom-rs (repaired behaviour of defects #3, #4, #13 and of the
+odd-length fragments of the default encoder):
 
 * `core/src/value/fragments.rs` — `Fragments::new`, `Fragments::len`,
   `From<Vec<Fragments>> for PixelFragmentSequence`
@@ -101,14 +102,19 @@ def encapsulateSingle (frame : Bytes) (fs : Nat) : Outcome (List Nat × List Byt
 
 /-! ### default `PixelDataWriter::encode` -/
 
-/-- the per-frame loop: `encFrame f` is the fragment produced by `encode_frame` for frame `f`
-(`none` = an error, which aborts). Returns the new fragments and offset-table entries. -/
+/-- fragments must have an even length: a trailing NUL is appended to an odd one -/
+def padEven (fd : Bytes) : Bytes := if fd.length % 2 = 1 then fd ++ [0] else fd
+
+/-- the per-frame loop: `encFrame f` is what `encode_frame` wrote for frame `f`
+(`none` = an error, which aborts); it becomes one fragment, padded to even length.
+Returns the new fragments and offset-table entries. -/
 def encodeLoop (encFrame : Nat → Option Bytes) : Nat → Nat → Nat → Option (List Bytes × List Nat)
   | 0, _, _ => some ([], [])
   | n + 1, frame, off =>
     match encFrame frame with
     | none => none
-    | some fd =>
+    | some fd0 =>
+      let fd := padEven fd0
       match encodeLoop encFrame n (frame + 1) (off + fd.length + 8) with
       | none => none
       | some (ds, ts) => some (fd :: ds, off :: ts)
